@@ -54,6 +54,32 @@ CHECKS = {
             'bounds <= 4 objects, <= 3 wires, <= 3 ports, <= 8 calls; Build.tla transcribes base.py/debug.py.',
             'TLA+ Build model checked by TLC (invariants + action properties); one replayed implementation test per state-graph transition',
             'DESIGN.md section 4, C11'),
+    'C07': ('model_checking',
+            'Every arithmetic block of the catalogue at every combination of port widths 1-4 (mixed in/out widths, all constructor '
+            'options, all constant shift/rotate amounts incl. amounts beyond the width, CLZ on both sides of powers of two, BCD) is '
+            'instantiated in real py4hw; its complete truth table is measured on the real simulator and judged row by row by TLC '
+            'against Library!CombRef (documented integer operation reduced modulo 2^(output width)); 8/16-bit instances on boundary '
+            'and seeded random vectors; TLC also checks algebraic identities of the references (RefSanity).',
+            'reference semantics in Library.tla are transcribed from the documentation; values < 2^30; zero divisors and rotation '
+            'amounts above the data width are not judged.',
+            'TLC evaluation of reference semantics (Library.tla) over complete truth tables recorded from the real simulator',
+            'DESIGN.md section 4, C07'),
+    'C08': ('model_checking',
+            'Same machinery as C07 for every gate, bit-manipulation block, selector, encoder and comparator: complete truth tables at '
+            'widths 1-3 and arities 1-6 (all constants for constant comparators and minterms, all 255 minterm sets of 3 inputs, both '
+            'priority directions, multi-bit selects), 4/8/16-bit instances on boundary and random vectors, judged by TLC against '
+            'Library!CombRef.',
+            'one-hot selectors are not judged for select vectors that are not one-hot; PriorityEncoder direction follows the parameter '
+            'name and the repository test (the docstring says the opposite).',
+            'TLC evaluation of reference truth tables (Library.tla) over complete tables recorded from the real simulator',
+            'DESIGN.md section 4, C08'),
+    'C14': ('model_checking',
+            'Fixed-point add/sub/mult/sign/comparator over all signed formats (1,i,f) with i in 1..3, f in 0..3 (mult: sampled format '
+            'triples incl. unequal operand/result formats): all operand pairs measured on the real simulator and judged by TLC against '
+            'exact scaled-integer arithmetic (Library!CombRef); the comparator only where the difference is representable.',
+            'formats up to 6 bits exhaustively.',
+            'TLC evaluation of exact scaled-integer references over complete operand tables recorded from the real simulator',
+            'DESIGN.md section 4, C14'),
 }
 
 PENDING = {}
